@@ -127,10 +127,13 @@ def select(ctx, states, n_quick):
     ref = [s for s in states if s["refused"]]
     nested = [s for s in acc if scriptgen.depth(s["prog"]) >= 2]
     flat = [s for s in acc if scriptgen.depth(s["prog"]) < 2]
-    for l in (dev, nested, flat, ref):
+    pasg = [s for s in acc if scriptgen.has_kind(s["prog"], "pasg")]      # parallel assignments: a bucket of their own
+    lvar = [s for s in acc if any(st["k"] == "asg" and st["v"] == "i" for st in s["prog"][:3])]     # loop variables that live outside their loop
+    for l in (dev, nested, flat, ref, pasg, lvar):
         rng.shuffle(l)
     # loops inside loops / ifs inside loops are where selection of carried variables is subtle: take more of them
-    return dev[:150] + nested[: (2 * n_quick) // 3] + flat[: n_quick // 3] + ref[:150]
+    return (dev[:150] + pasg[:200 if ctx.quick else 2000] + lvar[:250 if ctx.quick else 3000]
+            + nested[: (2 * n_quick) // 3] + flat[: n_quick // 3] + ref[:150])
 
 
 def judge(ctx, s, r):
@@ -191,15 +194,18 @@ def judge(ctx, s, r):
 
 def run(ctx: core.Ctx):
     if ctx.quick:
-        states = scriptgen.tlc_programs(ctx, ["Script_n3.cfg", "Script_loops4t.cfg", "Script_ops3.cfg", "Script_pasg.cfg"], "Script_sim.cfg", sim_num=8000, sim_depth=16)
+        states = scriptgen.tlc_programs(ctx, ["Script_n3.cfg", "Script_loops4t.cfg", "Script_ops3.cfg", "Script_pasg.cfg", "Script_lvar.cfg"], "Script_sim.cfg", sim_num=8000, sim_depth=16)
     else:
-        states = scriptgen.tlc_programs(ctx, ["Script_n3.cfg", "Script_loops4t.cfg", "Script_iffor4t.cfg", "Script_ops3.cfg", "Script_pasg.cfg", "Script_n4.cfg"], "Script_sim.cfg", sim_num=30000, sim_depth=18)
+        states = scriptgen.tlc_programs(ctx, ["Script_n3.cfg", "Script_loops4t.cfg", "Script_iffor4t.cfg", "Script_ops3.cfg", "Script_pasg.cfg", "Script_lvar.cfg", "Script_n4.cfg"], "Script_sim.cfg", sim_num=30000, sim_depth=18)
     vac = core.run_tlc("Script", "Script_vacuity.cfg", timeout=900)
     if vac.ok:
         raise core.MachineryError("vacuity: no accepted program with an if inside a for loop is reachable")
     old = core.run_tlc("Script", "Script_pasg_old.cfg", timeout=900)
     if old.ok:
         raise core.MachineryError("vacuity: the sequential translation of a parallel assignment (fixed defect) is not reachable in Script_pasg_old.cfg")
+    old = core.run_tlc("Script", "Script_lvar_old.cfg", timeout=900)
+    if old.ok:
+        raise core.MachineryError("vacuity: a for variable read after its loop (fixed defect) is not reachable in Script_lvar_old.cfg")
     ctx.set("spec_programs", len(states))
     # stage 1 (cheap, wide): the structure the real converter emits (which variables each If exports / each Loop
     # carries) against the selections Script.tla computes, for EVERY derived program the model accepts.
